@@ -6,6 +6,7 @@
    `keys_aligned a b` (corresponding maps have the same key set). *)
 From Coq Require Import List String ZArith Bool.
 From Cog Require Import Model.GoSem Proofs.GoSemEqualsProofs.
+From Cog Require Import Model.GoSemSpec13P Proofs.GoSemEqualsEnc.
 Import ListNotations.
 Local Open Scope string_scope.
 
@@ -88,3 +89,14 @@ Print Assumptions encode_eq_implies_equals_refuted.
 (* ---- non-vacuity: a typed value with a non-empty map, slice and pointer, equal to itself ---- *)
 Example c13_nonvacuous : exists ctx t a, typed ctx t a /\ eqc ctx t (t_nullable t) a a = true.
 Proof. exact GoSemEqualsProofs.c13_nonvacuous. Qed.
+
+(* ---- the fifth law has a proved partial form too (Proofs/GoSemEqualsEnc.v): equal encodings imply Equals for all
+   typed values that are enc_faithful - a decidable walk excluding time.Time leaves, disjunction structs, structs
+   declaring a field name twice, unnormalised floats and non-canonical `any` payloads; each exclusion is needed
+   (seven witness lemmas encode_eq_implies_equals_needs_... in that file). No keys_aligned hypothesis. ---- *)
+Theorem encode_eq_implies_equals_partial : forall ctx t a b,
+  typed ctx t a -> typed ctx t b ->
+  enc_faithful ctx t a = true -> enc_faithful ctx t b = true ->
+  json_eq (encode ctx t a) (encode ctx t b) = true -> eqc ctx t (t_nullable t) a b = true.
+Proof. exact GoSemEqualsEnc.encode_eq_implies_equals_partial. Qed.
+Print Assumptions encode_eq_implies_equals_partial.
